@@ -1,0 +1,114 @@
+//go:build verif
+
+package handler
+
+import (
+	"encoding/json"
+	"errors"
+	"net/http"
+	"net/http/httptest"
+	"testing"
+
+	"github.com/gotid/god/internal/verifdrv"
+	"github.com/gotid/god/lib/load"
+	"github.com/gotid/god/lib/logx"
+	"github.com/gotid/god/lib/stat"
+)
+
+// recording load.Shedder: scripted drop decision, counts what the integration reports
+type verifC09Shedder struct {
+	drop                                    bool
+	letIn, pass, fail, drops, inflight, dup int64
+}
+
+type verifC09Promise struct {
+	s        *verifC09Shedder
+	reported bool
+}
+
+func (s *verifC09Shedder) Allow() (load.Promise, error) {
+	if s.drop {
+		s.drops++
+		return nil, load.ErrServiceOverloaded
+	}
+	s.letIn++
+	s.inflight++
+	return &verifC09Promise{s: s}, nil
+}
+
+func (p *verifC09Promise) report() {
+	if p.reported {
+		p.s.dup++
+	}
+	p.reported = true
+	p.s.inflight--
+}
+
+func (p *verifC09Promise) Pass() { p.s.pass++; p.report() }
+func (p *verifC09Promise) Fail() { p.s.fail++; p.report() }
+
+// calls: [drop, shape, status]; shape 0 WriteHeader(status) | 1 Write without WriteHeader | 2 nothing written |
+// 3 WriteHeader(status), Write, Flush, Write | 4 panic(string) | 5 panic(error) | 6 Write then panic.
+// guard: RecoverHandler between the shedding handler and the handler (api/engine.go order); without it the
+// panic unwinds through the shedding handler to the driver (as to net/http's per-connection recover).
+type verifC09Case struct {
+	Guard bool      `json:"guard"`
+	Calls [][]int64 `json:"calls"`
+}
+
+// TestVerifDriverC09 reports after every request
+// [let in, passes, fails, drops, in flight, duplicate reports, status the client got, 1 if a panic escaped].
+func TestVerifDriverC09(t *testing.T) {
+	logx.Disable()
+	metrics := stat.NewMetrics("verif-c09")
+	verifdrv.Run(t, func(raw json.RawMessage) any {
+		var c verifC09Case
+		if err := json.Unmarshal(raw, &c); err != nil {
+			return map[string]any{"error": err.Error()}
+		}
+		sh := &verifC09Shedder{}
+		var cur []int64
+		var inner http.Handler = http.HandlerFunc(func(w http.ResponseWriter, r *http.Request) {
+			switch cur[1] {
+			case 0:
+				w.WriteHeader(int(cur[2]))
+			case 1:
+				w.Write([]byte("verif"))
+			case 2:
+			case 3:
+				w.WriteHeader(int(cur[2]))
+				w.Write([]byte("a"))
+				if f, ok := w.(http.Flusher); ok {
+					f.Flush()
+				}
+				w.Write([]byte("b"))
+			case 4:
+				panic("verif panic")
+			case 5:
+				panic(errors.New("verif panic error"))
+			case 6:
+				w.Write([]byte("partial"))
+				panic("verif panic")
+			}
+		})
+		if c.Guard {
+			inner = RecoverHandler(inner)
+		}
+		h := SheddingHandler(sh, metrics)(inner)
+		rows := make([][]int64, 0, len(c.Calls))
+		for _, call := range c.Calls {
+			cur = call
+			sh.drop = call[0] == 1
+			before := sh.letIn
+			rec := httptest.NewRecorder()
+			req := httptest.NewRequest(http.MethodGet, "http://localhost/verif", nil)
+			escaped, _ := verifdrv.Catch(func() { h.ServeHTTP(rec, req) })
+			esc := int64(0)
+			if escaped {
+				esc = 1
+			}
+			rows = append(rows, []int64{sh.letIn - before, sh.pass, sh.fail, sh.drops, sh.inflight, sh.dup, int64(rec.Code), esc})
+		}
+		return map[string]any{"rows": rows}
+	})
+}
